@@ -346,6 +346,18 @@ func (w *Worker) visitInstr(fr *frame, instr ssa.Instruction) continuation {
 			idx := w.indexValue(fr, instr, fr.get(instr.Index), instr.Index.Type(), len(x))
 			fr.env[instr] = copyVal(x[idx])
 		case string:
+			if it, ok := fr.get(instr.Index).(*Term); ok && len(x) <= 256 && len(x) > 0 {
+				// read-only table lookup with a symbolic index: ite chain
+				bw, _, _ := intInfo(instr.Index.Type())
+				if bw < 64 && uint64(len(x)) > mask(bw) {
+					acc := w.tc.BVConst(8, uint64(x[len(x)-1]))
+					for i := len(x) - 2; i >= 0; i-- {
+						acc = w.tc.Ite(w.tc.Eq(it, w.tc.BVConst(bw, uint64(i))), w.tc.BVConst(8, uint64(x[i])), acc)
+					}
+					fr.env[instr] = simp(acc)
+					break
+				}
+			}
 			idx := w.indexValue(fr, instr, fr.get(instr.Index), instr.Index.Type(), len(x))
 			fr.env[instr] = uint64(x[idx])
 		case *symString:
@@ -560,7 +572,10 @@ func (w *Worker) indexValue(fr *frame, instr ssa.Instruction, idx value, t types
 		}
 		return int(i)
 	case *Term:
-		inRange := w.tc.BvCmp(OBvUlt, idx, w.tc.BVConst(bw, uint64(n)))
+		inRange := w.tc.True
+		if bw >= 64 || uint64(n) <= mask(bw) {
+			inRange = w.tc.BvCmp(OBvUlt, idx, w.tc.BVConst(bw, uint64(n)))
+		}
 		if !w.decideBool(inRange, "index in range") {
 			panic(targetPanic{v: runtimeErr(fmt.Sprintf("index out of range [symbolic] with length %d", n)), where: fr.where(instr)})
 		}
@@ -640,7 +655,10 @@ func (w *Worker) boundInt(v value, t types.Type, capv int, what string) int64 {
 		}
 		return int64(v)
 	case *Term:
-		inRange := w.tc.BvCmp(OBvUle, v, w.tc.BVConst(bw, uint64(capv)))
+		inRange := w.tc.True
+		if bw >= 64 || uint64(capv) <= mask(bw) {
+			inRange = w.tc.BvCmp(OBvUle, v, w.tc.BVConst(bw, uint64(capv)))
+		}
 		if !w.decideBool(inRange, what+" in range") {
 			return -1
 		}
